@@ -31,6 +31,9 @@ class Adapter(EnvAdapter):
                 # configurable reward function: three pairwise different values
                 c("r4c6m4_rw", 4, 6, 4, rewards=(2.0, -1.0, -0.5), episodes=6, max_steps=30,
                   policies=["safe", "safe_then_mine", "safe_then_invalid", "masked"]),
+                # the three values given as Python ints (whole numbers): the reward must still be a float32 scalar
+                c("r3c5m3_rwint", 3, 5, 3, rewards=(3, -2, -1), episodes=4, max_steps=16,
+                  policies=["safe", "safe_then_mine", "safe_then_invalid", "masked"]),
             ]
         return [
             c("r10c10m10", 10, 10, 10, default_ctor=True, episodes=16, max_steps=95, probe_every=2, probe_cap=100,
@@ -52,6 +55,8 @@ class Adapter(EnvAdapter):
             c("r4c6m4_rw", 4, 6, 4, rewards=(2.0, -1.0, -0.5), episodes=40, max_steps=30,
               policies=["safe", "safe_then_mine", "safe_then_invalid", "masked", "random"]),
             c("r6c4m5_rw", 6, 4, 5, rewards=(0.5, 3.0, 1.0), episodes=30, max_steps=30,
+              policies=["safe", "safe_then_mine", "safe_then_invalid", "masked", "random"]),
+            c("r3c5m3_rwint", 3, 5, 3, rewards=(3, -2, -1), episodes=20, max_steps=16,
               policies=["safe", "safe_then_mine", "safe_then_invalid", "masked", "random"]),
         ]
 
